@@ -314,7 +314,7 @@ def run_c12(run):
     run.build_harness()
     cb = class_bytes(run.seed)
     maxlen, xlen, mlen, blen = (6, 4, 4, 2) if quick else (7, 5, 6, 3)
-    nrand = 6000 if quick else 150000
+    nrand = 6000 if quick else 400000
     # (M) laws on the operators + generation of the case tables, side by side
     with concurrent.futures.ThreadPoolExecutor(max_workers=5) as ex:
         fm = ex.submit(run.model_check, "WireMC", mc_cfg(["str", "args", "xf"], maxlen, 3, 2, cb, ["InvStr", "InvArgs", "InvXf"]), "WireMC-C12", 1500 if quick else 3000)
@@ -367,10 +367,11 @@ def run_c14(run):
     quick = run.tier == "quick"
     run.build_harness()
     cb = class_bytes(run.seed)
-    nrand = 8000 if quick else 200000
+    nrand = 8000 if quick else 400000
+    amtlen = 3 if quick else 4             # amounts: every canonical magnitude up to this many bytes over the 6-byte alphabet
     with concurrent.futures.ThreadPoolExecutor(max_workers=4) as ex:
-        fm = ex.submit(run.model_check, "WireMC", mc_cfg(["amt", "meta", "tok", "roles"], 1, 1, 1, cb, ["InvAmt", "InvMeta", "InvTok", "InvRoles"]), "WireMC-C14", 1500)
-        fg = ex.submit(generate, run, "c14", gen_cfg("c14", 1, 1, 1, 1, cb), "t_codec.ndjson")
+        fm = ex.submit(run.model_check, "WireMC", mc_cfg(["amt", "meta", "tok", "roles"], 1, 1, amtlen, cb, ["InvAmt", "InvMeta", "InvTok", "InvRoles"]), "WireMC-C14", 1500)
+        fg = ex.submit(generate, run, "c14", gen_cfg("c14", 1, 1, 1, amtlen, cb), "t_codec.ndjson")
         fmut = ex.submit(spec_mutants, run, cb, [0, 1] if quick else [0, 1, 2, 3])
         ok, o, info = fm.result()
         table, ntab = fg.result()
@@ -390,10 +391,10 @@ def run_c14(run):
     finish_cov(run, st, c, accepted, lines, files, P14, nself, muts,
                "distinct_nontrivial = number of distinct encodings (hash of kind and bytes) of values that carry at least one field beyond a bare nil/zero amount and "
                "were marshalled, sized, marshalled again into a dirty buffer and decoded back; measured by the harness over the whole observed table",
-               "amounts: nil, zero and both signs of every canonical magnitude of <= 3 bytes over {00, 01, 02, 7f, 80, ff}; ESDigitalToken: 9 varint boundaries x 12 amounts x "
+               "amounts: nil, zero and both signs of every canonical magnitude of <= %d bytes over {00, 01, 02, 7f, 80, ff}; ESDigitalToken: 9 varint boundaries x 12 amounts x "
                "4 byte fields x 7 metadata x 2; MetaData: 13 x 4 x 2 x 4 x 2 x 7 URI lists x 2; role lists of <= 3 over 4 roles (%d values, enumerated completely by TLC "
                "and encoded/decoded completely by the real code); every byte string of length <= 3 over {00 01 02 08 0a 12 1a 22 2a 7f 80 ff} through each of the four "
-               "decoders (7540 decodings)" % ntab)
+               "decoders (7540 decodings)" % (amtlen, ntab))
     run.cov["tables"] = {"codec": ntab}
     if c.get("illtyped", 0):
         raise Infra("the harness produced %d abstract values that are not canonical (harness error)" % c["illtyped"])
